@@ -80,6 +80,8 @@ def model_term(case):
 def rand_case(rng):
     n = rng.choice([1, 2, 5, 30, 200, 998, 999, 1000, 1001, 1500, 5000])
     r = F(rng.choice([1, 1, 2, 3, 1]), rng.choice([1, 2, 3]))
+    if rng.random() < 0.15:      # very lopsided designs (a 0.1% holdout): the expected minority count is small even for n >= 1000
+        r = rng.choice([F(999), F(1, 999), F(1, 400), F(250)])
     p = r / (1 + r)
     center = int(n * p)
     k = max(0, min(n, center + rng.choice([-3, -1, 0, 0, 1, 2, rng.randint(-n, n)])))
@@ -183,7 +185,36 @@ def check_public(case):
     return fails, tie
 
 
+def multi_arm_case(seed):
+    """ONE SampleRatio instance with a mapping ratio inside an experiment over three or four variants, all pairs: every
+    pair's p-value equals a fresh instance analysed for that pair alone (the expected share depends on BOTH variants)"""
+    import random
+    import tea_tasting as tt
+    import tea_tasting.aggr as A
+    rng = random.Random(seed)
+    ids = rng.choice([["a", "b", "c"], [0, 1, 2], ["a", "b", "c", "d"]])
+    weights = {v: rng.choice([1, 2, 3, 5]) for v in ids}
+    counts = {v: rng.choice([40, 90, 300, 2500]) + rng.randint(0, 30) for v in ids}
+    data = {v: A.Aggregates(count_=counts[v]) for v in ids}
+    method = rng.choice(["auto", "norm", "binom"])
+    sr = tt.SampleRatio(dict(weights), method=method)
+    res = tt.Experiment(srm=sr).analyze(data, all_variants=True)
+    fails = []
+    for (c, t), r in res.items():
+        alone = tt.SampleRatio(weights[t] / weights[c], method=method).analyze({c: data[c], t: data[t]}, c, t)
+        if abs(r["srm"].pvalue - alone.pvalue) > 1e-9 * max(alone.pvalue, 1e-300) + 1e-13:
+            fails.append(f"pair ({c!r}, {t!r}) pvalue {r['srm'].pvalue} inside the experiment, {alone.pvalue} for a fresh metric with ratio "
+                         f"{weights[t]}/{weights[c]}")
+    return fails
+
+
 def oracle(ctx, deep=False):
+    for _ in range(ctx.n(10, 200)):
+        seed = ctx.rng.randint(0, 10**6)
+        ctx.evaluations += 1
+        ctx.count("oracle:multi-arm-one-instance")
+        for f in multi_arm_case(seed)[:2]:
+            ctx.violations.append({"what": "multi-arm mapping on one instance", "detail": f, "input": {"multi_arm": True, "seed": seed}})
     for i in range(ctx.n(250, 5000) * (3 if deep else 1)):
         c = rand_case(ctx.rng)
         if c["cc"] + c["ct"] == 0:
@@ -203,6 +234,9 @@ def oracle(ctx, deep=False):
 
 
 def replay(ctx, rp):
+    if rp["input"].get("multi_arm"):
+        fails = multi_arm_case(rp["input"]["seed"])
+        return {"fails": bool(fails), "failures": fails}
     fails, tie = check_public(rp["input"])
     return {"fails": bool(fails), "failures": fails}
 
